@@ -1,5 +1,227 @@
-(* C09 — placeholder while the proofs are being written (replaced below). *)
-From Verif Require Import Base.Prelude Filter.Model.
-Theorem C09_placeholder : forall (A : Type) (keep : A -> bool), inplace_filter keep [] = ([], false).
+(* C09 — ACL enforcement: nothing unreadable returned, expired tokens never honoured.
+   Theorems only; each closed by an application of a lemma of Filter/{Loops,Proofs,Switch,ResolveProofs}.v.
+   The authorizer [az] is an arbitrary record of functions: everything holds for ALL authorizers.
+   Readability of each element kind ([readable_*]), the declarative result of every branch of the
+   type switch ([spec_response]) and the flattened view ([items], [ids], [flag_of]) are in Filter/Spec.v. *)
+From Verif Require Import Base.Prelude.
+From Verif Require Import Filter.Model.
+From Verif Require Import Filter.Loops.
+From Verif Require Import Filter.Spec.
+From Verif Require Import Filter.Proofs.
+From Verif Require Import Filter.Switch.
+From Verif Require Import Filter.ResolveModel.
+From Verif Require Import Filter.ResolveProofs.
+From Coq Require Import Permutation.
+
+Section C09.
+  Variable az : authz.
+
+  (* ---------- the loops ---------- *)
+
+  (* "for i := 0; i < len(s); i++ { if keep(s[i]) {continue}; removed = true; s = append(s[:i], s[i+1:]...); i-- }"
+     is List.filter and reports exactly whether something was dropped — adjacent removals, first,
+     last, all, none; for every fuel that covers the list. *)
+  Theorem C09_loop_is_filter : forall (A : Type) (keep : A -> bool) (fuel : nat) (s : list A),
+    List.length s <= fuel ->
+    inplace_loop keep fuel 0 s false = (filter keep s, negb (forallb keep s)).
+  Proof. exact (@loop_is_filter). Qed.
+
+  (* at every index of the walk: the prefix is final, the rest is still to be filtered *)
+  Theorem C09_loop_invariant : forall (A : Type) (keep : A -> bool) (fuel i : nat) (s : list A) (r : bool),
+    List.length s - i <= fuel ->
+    inplace_loop keep fuel i s r = (firstn i s ++ filter keep (skipn i s), r || negb (forallb keep (skipn i s))).
+  Proof. exact (@inplace_loop_inv). Qed.
+
+  (* the "range + append to a fresh slice" loops *)
+  Theorem C09_range_is_filter : forall (A : Type) (keep : A -> bool) (l : list A),
+    range_filter keep l = (filter keep l, negb (forallb keep l)).
+  Proof. exact (@range_filter_spec). Qed.
+
+  (* FilterEntries (span compaction with Move) used by FilterDirEnt / FilterTxnResults *)
+  Theorem C09_compact_is_filter : forall (A : Type) (filtered : A -> bool) (a : list A),
+    filter_slice filtered a = filter (fun x => negb (filtered x)) a.
+  Proof. exact (@compact_is_filter). Qed.
+
+  (* ---------- the whole type switch ---------- *)
+
+  (* Every branch of Filter.Filter computes the declarative result: the readable elements in
+     their original order and multiplicity, nested lists filtered the same way, emptied
+     datacenters / peers dropped, secrets hidden, the flag exactly as specified. *)
+  Theorem C09_filter_exact : forall r, wf r -> filter_response az r = spec_response az r.
+  Proof. exact (switch_exact az). Qed.
+
+  (* every returned element (at every nesting level) is readable under the authorizer *)
+  Theorem C09_sound : forall r, wf r -> forall i, In i (ids (filter_response az r)) ->
+    exists it, In it (items az r) /\ it_id it = i /\ it_readable it = true.
+  Proof. exact (switch_sound az). Qed.
+
+  (* every readable element is returned: same order, same multiplicity, nothing else *)
+  Theorem C09_complete : forall r, wf r ->
+    ids (filter_response az r) = map it_id (filter it_readable (items az r)).
+  Proof. exact (switch_complete az). Qed.
+
+  (* the flag afterwards, for every response type that has one *)
+  Theorem C09_flag : forall r, wf r ->
+    match flag_of (filter_response az r) with
+    | Some f' => f' = (sticky_type r && flag0 r) || existsb bad_item (items az r)
+    | None => flag_of r = None
+    end.
+  Proof. exact (switch_flag az). Qed.
+
+  (* starting from a clear flag: set exactly when a reportable element was removed *)
+  Theorem C09_flag_iff : forall r f', wf r -> flag0 r = false -> flag_of (filter_response az r) = Some f' ->
+    (f' = true <-> exists it, In it (items az r) /\ it_readable it = false /\ it_flagged it = true).
+  Proof. exact (switch_flag_iff az). Qed.
+
+  (* ---------- map-iterating branches: the runtime's iteration order does not matter ---------- *)
+
+  Theorem C09_exported_any_order : forall ord m flag,
+    NoDup (map fst ord) -> (forall kv, In kv ord <-> In kv m) ->
+    exported_loop az ord m flag
+    = (spec_groups (readable_svcname az) m, flag || group_removed (readable_svcname az) m).
+  Proof. exact (exported_loop_exact az). Qed.
+
+  Theorem C09_datacenters_any_order : forall ord m, Permutation ord m ->
+    Permutation (fst (dc_loop az ord [] false)) (fst (filter_dc_nodes az m))
+    /\ snd (dc_loop az ord [] false) = snd (filter_dc_nodes az m).
+  Proof. exact (dc_loop_order_irrelevant az). Qed.
+
+  Theorem C09_services_any_order : forall ord m,
+    NoDup (map fst m) -> (forall kv, In kv ord <-> In kv m) ->
+    filter_services_ord az ord m
+    = (filter (fun kv => svc_ok az EmptyString (fst kv)) m,
+       negb (forallb (fun kv => svc_ok az EmptyString (fst kv)) m)).
+  Proof. exact (filter_services_ord_exact az). Qed.
+
+  Theorem C09_node_services_any_order : forall ord n m,
+    NoDup (map fst m) -> (forall kv, In kv ord <-> In kv m) ->
+    filter_node_services_ord az ord (Some (n, m))
+    = if readable_node az n
+      then (Some (n, filter (fun kv => readable_nsvc_on az (nd_name n) (snd kv)) m),
+            negb (forallb (fun kv => readable_nsvc_on az (nd_name n) (snd kv)) m))
+      else (None, true).
+  Proof. exact (filter_node_services_ord_exact az). Qed.
+
+  (* ---------- nested node dumps ---------- *)
+  Theorem C09_node_dump : forall l,
+    filter_node_dump az l
+    = (map (spec_nodeinfo az) (filter (readable_nodeinfo az) l), negb (forallb (nodeinfo_intact az) l)).
+  Proof. exact (filter_node_dump_exact az). Qed.
+
+  (* ---------- redaction ---------- *)
+  Theorem C09_token_secrets_hidden : forall l t,
+    acl_write az = false -> In (Some t) (filter_tokens az l) -> tk_secret t = redacted.
+  Proof. exact (tokens_redacted az). Qed.
+
+  Theorem C09_query_tokens_hidden : forall l q,
+    acl_write az = false -> In q (fst (filter_prepared_queries az l)) ->
+    pq_token q = EmptyString \/ pq_token q = redacted.
+  Proof. exact (query_tokens_redacted az). Qed.
+End C09.
+
+(* ---------- token expiry ---------- *)
+
+(* ACLToken.IsExpired: expired iff it has a (non-zero) expiration time strictly before a non-zero reference time *)
+Theorem C09_is_expired : forall t now,
+  is_expired t now = true <-> now <> 0%N /\ exists e, id_exp t = Some e /\ e <> 0%N /\ (e < now)%N.
+Proof. exact is_expired_spec. Qed.
+
+(* Whatever ResolveToken grants passed the expiry test at the time of the attempt that granted
+   it — for every cache state, backend, RPC answer, policy outcome, down policy, on every retry. *)
+Theorem C09_granted_unexpired : forall acls cls env down cache t c',
+  resolve_token acls cls env down cache = (OGranted t, c') ->
+  exists k, k < max_retries /\ is_expired t (a_now (env k)) = false.
+Proof. exact resolve_token_granted_unexpired. Qed.
+
+(* An identity that is expired when the attempt tests it — obtained from the backend, a fresh
+   cache entry, a stale entry served asynchronously, an extended cache entry or the primary
+   datacenter — ends the resolution with ACL-not-found: for every cache state. *)
+Theorem C09_expired : forall env down fuel i cache last t c1,
+  resolve_identity (a_bk (env i)) cache (a_fresh (env i)) (a_rpc (env i)) down = ((Some t, INone), c1) ->
+  is_expired t (a_now (env i)) = true ->
+  resolve_loop env down (S fuel) i cache last = (OErr ENotFound, c1).
+Proof. exact expired_not_found. Qed.
+
+(* If every copy of the token that any source offers is expired, the result is independent of
+   the token: not found, an error, or the down-policy authorizer (never the token's own). *)
+Theorem C09_all_expired : forall env down fuel cache last,
+  (forall t, offered (a_bk (env 0)) cache (a_rpc (env 0)) t -> is_expired t (a_now (env 0)) = true) ->
+  match fst (resolve_loop env down (S fuel) 0 cache last) with
+  | OErr _ | ODown => True
+  | _ => False
+  end.
+Proof. exact all_expired_outcome. Qed.
+
+Theorem C09_expired_while_cached : forall env down fuel t last,
+  a_bk (env 0) = BkNotDone -> a_fresh (env 0) = true -> is_expired t (a_now (env 0)) = true ->
+  resolve_loop env down (S fuel) 0 (Some t) last = (OErr ENotFound, Some t).
+Proof. exact cached_fresh_expired. Qed.
+
+Theorem C09_expired_not_yet_reaped : forall env down fuel t cache last,
+  a_bk (env 0) = BkDone (Some t) BkOk -> is_expired t (a_now (env 0)) = true ->
+  resolve_loop env down (S fuel) 0 cache last = (OErr ENotFound, cache).
+Proof. exact store_still_holds_expired. Qed.
+
+Theorem C09_expired_cache_extended : forall env fuel t last down,
+  a_bk (env 0) = BkNotDone -> a_fresh (env 0) = false -> a_rpc (env 0) = RpcFail -> extends_cache down = true ->
+  is_expired t (a_now (env 0)) = true ->
+  resolve_loop env down (S fuel) 0 (Some t) last = (OErr ENotFound, Some t).
+Proof. exact cached_stale_primary_down_expired. Qed.
+
+(* ---------- non-vacuity ---------- *)
+Definition ex_az : authz :=
+  Authz (fun _ n => negb (String.eqb n "bad")) (fun _ n => negb (String.eqb n "bad"))
+        (fun _ => true) (fun _ => true) (fun _ => true) (fun _ => true) true false.
+
+(* a well-formed response with two peers, one of them losing a service: the hypotheses of the
+   map theorems are met and the flag is set although the peer visited last is intact *)
+Example C09_example_exported :
+  let r := RIndexedExportedServiceList [("p1"%string, [SV 1 "bad"; SV 2 "web"]); ("p2"%string, [SV 3 "api"])] false in
+  wf r /\ filter_response ex_az r
+          = RIndexedExportedServiceList [("p1"%string, [SV 2 "web"]); ("p2"%string, [SV 3 "api"])] true.
+Proof. split; [repeat constructor; cbn; intuition discriminate | reflexivity]. Qed.
+
+(* adjacent removals, first and last element, nested lists *)
+Example C09_example_node_dump :
+  filter_response ex_az
+    (RIndexedNodeDump [] [NI 1 "bad" "" [NS 2 "a" "a" ""] []; NI 3 "bad" "" [] [];
+                          NI 4 "n1" "" [NS 5 "bad" "bad" ""; NS 6 "web" "web" ""; NS 7 "bad" "bad" ""] [HC 8 "n1" "" ""; HC 9 "n1" "bad" ""];
+                          NI 10 "bad" "" [] []] false)
+  = RIndexedNodeDump [] [NI 4 "n1" "" [NS 6 "web" "web" ""] [HC 8 "n1" "" ""]] true.
 Proof. reflexivity. Qed.
-Print Assumptions C09_placeholder.
+
+(* the expiry hypotheses are satisfiable: a cached token that expired one tick ago *)
+Example C09_example_expired :
+  let t := Ident 7 (Some 99%N) false in
+  let env := fun _ : nat => Attempt BkNotDone true RpcFail PolOk 100%N in
+  is_expired t 100%N = true
+  /\ resolve_token true SecPlain env DownExtend (Some t) = (OErr ENotFound, Some t)
+  /\ resolve_token true SecPlain (fun _ => Attempt BkNotDone true RpcFail PolOk 99%N) DownExtend (Some t) = (OGranted t, Some t).
+Proof. repeat split. Qed.
+
+Print Assumptions C09_loop_is_filter.
+Print Assumptions C09_loop_invariant.
+Print Assumptions C09_range_is_filter.
+Print Assumptions C09_compact_is_filter.
+Print Assumptions C09_filter_exact.
+Print Assumptions C09_sound.
+Print Assumptions C09_complete.
+Print Assumptions C09_flag.
+Print Assumptions C09_flag_iff.
+Print Assumptions C09_exported_any_order.
+Print Assumptions C09_datacenters_any_order.
+Print Assumptions C09_services_any_order.
+Print Assumptions C09_node_services_any_order.
+Print Assumptions C09_node_dump.
+Print Assumptions C09_token_secrets_hidden.
+Print Assumptions C09_query_tokens_hidden.
+Print Assumptions C09_is_expired.
+Print Assumptions C09_granted_unexpired.
+Print Assumptions C09_expired.
+Print Assumptions C09_all_expired.
+Print Assumptions C09_expired_while_cached.
+Print Assumptions C09_expired_not_yet_reaped.
+Print Assumptions C09_expired_cache_extended.
+Print Assumptions C09_example_exported.
+Print Assumptions C09_example_node_dump.
+Print Assumptions C09_example_expired.
